@@ -119,9 +119,8 @@ def check_passthrough(ctx, fi, self_cls, stats, rule="C07.R2"):
                 ctx.ob(rule, fi, good, "parameter %s is evaluated against %s, expected the context in force %s" % (N.show(e["param"]), N.show(e["ctx"]), N.show(cur)), node=e.node)
 
 
-def member_store_checks(ctx):
+def member_store_checks(ctx, rule="C07.R4"):
     M = ctx.model
-    rule = "C07.R4"
     for cls in ("Struct", "Sequence", "FocusedSeq", "LazyStruct", "Union"):
         # ---- parse: named member stored in the nested context after its SUB
         fi, paths = method_paths(ctx, cls, "_parse")
